@@ -102,4 +102,102 @@ theorem transfer {V : Type} (derive : String → Core → V)
   simp [Entry.fresh] at hfresh
   rw [← hsnap, hfresh.2]
 
+
+/-! ## transactions -/
+
+/-- **txn_abort_restores**: whatever happened inside the block, an aborted transaction leaves exactly the snapshot
+(atoms, bonds, stored hydrogens and labels, coordinates' Vector objects, name, meta, cache) and a usable molecule:
+nothing pending, no backup. -/
+theorem txn_abort_restores {T : Tables} (hT : TablesOK T = true) {w : World} {i : Nat} {o : Obj} {bk : Core}
+    {obs : List String} (hget : w.objs[i]? = some o) (hb : o.backup = some (some bk))
+    (herr : (step T w (.exitExc i) obs).err = none) :
+    ∃ o', (step T w (.exitExc i) obs).w.objs[i]? = some o' ∧ o'.toCore = bk ∧ o'.changed = some none ∧
+      o'.backup = some none :=
+  exitExc_restores hT hget hb herr
+
+/-- the snapshot `__enter__` takes of today's code is a copy of the molecule: same atoms, bonds, stored hydrogens, labels,
+name and meta; it keeps only ring / component values -/
+theorem enter_snapshot (c : Core) (vecs : List (Int × Int)) (kS kC : Bool) :
+    (copyCore current c vecs kS kC).1.mol = c.mol ∧ (copyCore current c vecs kS kC).1.hs = c.hs ∧
+    (copyCore current c vecs kS kC).1.labels = c.labels ∧ (copyCore current c vecs kS kC).1.name = c.name ∧
+    (copyCore current c vecs kS kC).1.info = c.info ∧
+    (∀ e ∈ (copyCore current c vecs kS kC).1.cache, e ∈ c.cache ∧ kindOf e.key ≠ .full) := by
+  refine ⟨rfl, rfl, rfl, ?_, ?_, ?_⟩
+  · simp only [copyCore]; rw [if_pos (by decide)]
+  · simp only [copyCore]; rw [if_pos (by decide)]
+  · intro e he
+    have := copyKeep_kind (T := current) (by decide +kernel) kS kC c.cache e he
+    refine ⟨this.1, ?_⟩
+    rcases this.2 with ⟨_, h⟩ | ⟨_, h⟩ <;> simp [h]
+
+/-! ## copies -/
+
+/-- **copy_independent** (objects): an operation on one object leaves every other existing object untouched. -/
+theorem copy_independent (T : Tables) (w : World) (op : Op) (obs : List String) (j : Nat) (hj : j ≠ op.target)
+    (hlt : j < w.objs.length) : (step T w op obs).w.objs[j]? = w.objs[j]? :=
+  step_frame T w op obs j hj hlt
+
+/-- **copy_independent** (coordinates): a copy made by a non-sharing `Element.copy` points only to Vector objects that
+did not exist before, and moving an atom writes exactly the one Vector its own object points to. -/
+theorem copy_independent_coordinates (T : Tables) (hT : TablesOK T = true) (w : World) (i : Nat) (o : Obj) (kS kC : Bool) :
+    (∀ p ∈ (copyObj T o w.vecs kS kC).1.xy, w.vecs.length ≤ p.2) ∧
+    (∀ (n : Nat) (x y : Int) (obs : List String) (a : Nat), w.objs[i]? = some o → o.xy.lookup n = some a →
+      (step T w (.setXY i n x y) obs).w.vecs = w.vecs.set a (x, y)) := by
+  have hS := (tables_parts hT).2.2.2.2.2.2
+  simp only [slotsOK, Bool.and_eq_true, Bool.not_eq_true'] at hS
+  refine ⟨?_, fun n x y obs a hget ha => (setXY_vecs T w i n x y obs o a hget ha).1⟩
+  intro p hp
+  have := (copyXY_fresh T hS.2 w.vecs o.xy).1 p
+  apply this
+  simpa [copyObj, copyCore] using hp
+
+/-- **copy_editable**: every object of every reachable world (the seed, copies, substructures, unions) has both
+transaction slots assigned, so no edit can fail for lack of initialisation … -/
+theorem copy_editable {T : Tables} (hT : TablesOK T = true) (m : Mol) (h : List (Op × List String))
+    (ha : admissible T (freshWorld m) h = true) :
+    ∀ o ∈ (runHist T (freshWorld m) h).objs, o.changed ≠ none ∧ o.backup ≠ none := by
+  intro o ho
+  have hinv := coherent_reachable hT h _ (fresh_world_inv m) ha o ho
+  refine ⟨hinv.chg, ?_⟩
+  rcases hinv.bk with hb | ⟨b, hb⟩ <;> simp [hb]
+
+/-- … and an accepted method never raises AttributeError nor leaves the model: the only Python exception an accepted
+event list can raise is the KeyError of `calc_implicit` for a pending atom that no longer exists. -/
+theorem no_attribute_error {T : Tables} (hT : TablesOK T = true) (e : Entry13) (he : e ∈ entryPoints) {w : World} {i : Nat}
+    {o : Obj} {cx : Ctx} (hskip : cx.skip = false) (ho : Inv o) (hl : e.needsLabels = true → labelsFresh o.toCore = true)
+    {er : Err} (herr : (runFn T w i o cx e.fn e.env).err = some er) : er = .key := by
+  obtain ⟨hK, hM, _⟩ := tables_parts hT
+  have hacc := mutators_accept hM e he cx.special (inTxn o)
+  unfold accepts analyse at hacc
+  cases han : absRun T false cx.special (expand T.fns expandFuel e.fn e.env) (entryAbs (inTxn o) e.needsLabels) with
+  | none => simp [han] at hacc
+  | some A' =>
+    unfold runFn at herr
+    cases hi : interp T cx (expand T.fns expandFuel e.fn e.env) { o := o, vecs := w.vecs } with
+    | ok c => simp [hi] at herr
+    | err c er' =>
+      simp only [hi, Option.some.injEq] at herr
+      subst herr
+      exact interp_err hK _ _ _ _ _ _ (gamma_entry ho e.needsLabels hl) (by rw [hskip]; exact han) hi
+
+/-! ## the hypotheses are satisfiable: a concrete admissible history on propan-1-ol exercising reads, an edit, a
+transaction with an attribute write, an aborted transaction, a copy and an edit of the copy -/
+
+def demoMol : Mol :=
+  ⟨[(1, { z := 6 }), (2, { z := 6 }), (3, { z := 8 })],
+   [(1, [(2, { order := 1 })]), (2, [(1, { order := 1 }), (3, { order := 1 })]), (3, [(2, { order := 1 })])]⟩
+
+def demoHist : List (Op × List String) :=
+  [(.read 0 "sssr", ["sssr", "rings_count", "not_special_connectivity"]),
+   (.read 0 "__cached_method___str__", ["__cached_method___str__", "atoms_order"]),
+   (.addBond 0 1 3 1 false, ["atoms_rings", "atoms_rings_sizes", "sssr"]),
+   (.enter 0, []), (.setCharge 0 3 1, []), (.exitOk 0, ["atoms_rings_sizes"]),
+   (.enter 0, []), (.delAtom 0 2 false, []), (.exitExc 0, []),
+   (.copy 0 true true, []), (.addAtom 1 7 none false, ["atoms_rings_sizes"]), (.delBond 1 1 2 false, [])]
+
+example : admissible current (freshWorld demoMol) demoHist = true := by decide +kernel
+
+example : ((runHist current (freshWorld demoMol) demoHist).objs.map fun o => (o.mol.ids, coherent o.toCore)) =
+    [([1, 2, 3], true), ([1, 2, 3, 4], true)] := by decide +kernel
+
 end ChythonModel.Props.C13
